@@ -289,6 +289,11 @@ func VerifH_C13_Handler() {
 	xmlBroken := false
 
 	switch method {
+	case "DELETE":
+		// RFC 4918 9.6.1: any Depth but infinity is invalid for DELETE
+		if d, ok := symHeaderValue(hdr, "Depth", []string{"0", "1", "infinity"}); ok && d != "infinity" {
+			malformed = true
+		}
 	case "PROPFIND":
 		if d, ok := symHeaderValue(hdr, "Depth", []string{"0", "1", "infinity"}); ok && d != "0" && d != "1" && d != "infinity" {
 			malformed = true
